@@ -132,7 +132,7 @@ func ToCommandLine(wf WireFormat, resolveIds bool) (rule string, err error) {
 	// Detect if rule is a watch.
 	// Must have all syscalls and perm field. Only other valid fields are
 	// dir, path and key, according to auditctl source
-	if permIdx, ok := existingFields[permField]; r.allSyscalls && ok {
+	if permIdx, ok := existingFields[permField]; r.allSyscalls && ok && r.isWatchShaped() {
 		extraFields, pos := false, 0
 		var path, key string
 	loop:
@@ -321,6 +321,31 @@ func ToCommandLine(wf WireFormat, resolveIds bool) (rule string, err error) {
 	}
 
 	return strings.Join(arguments, " "), nil
+}
+
+// isWatchShaped reports whether the rule has exactly the layout produced for
+// a file watch (-w): always,exit with a path or dir, then perm, then an
+// optional key, all compared with '='. Anything else must be printed as a
+// syscall rule or it would not mean the same when parsed again.
+func (r *ruleData) isWatchShaped() bool {
+	if r.flags != exitFilter || r.action != alwaysAction {
+		return false
+	}
+	if n := len(r.fields); n != 2 && n != 3 {
+		return false
+	}
+	for _, op := range r.fieldFlags {
+		if op != equalOperator {
+			return false
+		}
+	}
+	if r.fields[0] != pathField && r.fields[0] != dirField {
+		return false
+	}
+	if r.fields[1] != permField {
+		return false
+	}
+	return len(r.fields) == 2 || r.fields[2] == keyField
 }
 
 func addFileWatch(data *ruleData, rule *FileWatchRule) error {
